@@ -33,9 +33,13 @@ package c14
 import (
 	"bytes"
 	"context"
+	"crypto/sha256"
+	"encoding/hex"
 	"fmt"
 	"io"
+	"io/fs"
 	"os"
+	"path/filepath"
 	"runtime"
 	"runtime/debug"
 	"sort"
@@ -46,10 +50,12 @@ import (
 	"testing/synctest"
 	"time"
 
+	"github.com/nspcc-dev/bbolt"
 	"github.com/nspcc-dev/neofs-node/pkg/local_object_storage/blobstor/fstree"
 	meta "github.com/nspcc-dev/neofs-node/pkg/local_object_storage/metabase"
 	"github.com/nspcc-dev/neofs-node/pkg/local_object_storage/shard"
 	"github.com/nspcc-dev/neofs-node/pkg/local_object_storage/shard/mode"
+	"github.com/nspcc-dev/neofs-node/pkg/local_object_storage/writecache"
 	"github.com/nspcc-dev/neofs-node/verifharness/bubble"
 	"github.com/nspcc-dev/neofs-node/verifharness/c14/shmodes"
 	"github.com/nspcc-dev/neofs-node/verifharness/ev"
@@ -103,6 +109,44 @@ func wcObjects(dir string) int {
 		}
 	}
 	return n
+}
+
+// noSyncBolt returns fresh bbolt options without fsync (speed only; the
+// metabase mutates the struct on every reopen, so one per shard).
+func noSyncBolt() *bbolt.Options {
+	o := *bbolt.DefaultOptions
+	o.NoSync = true
+	return &o
+}
+
+// tree is snap.Tree with whole-file reads (the files are small).
+func tree(root string) ([]snap.Entry, error) {
+	var res []snap.Entry
+	err := filepath.WalkDir(root, func(p string, d fs.DirEntry, err error) error {
+		if err != nil {
+			return err
+		}
+		if p == root {
+			return nil
+		}
+		info, err := d.Info()
+		if err != nil {
+			return err
+		}
+		rel, _ := filepath.Rel(root, p)
+		e := snap.Entry{Path: rel, Mode: info.Mode() & (fs.ModeType | fs.ModePerm)}
+		if info.Mode().IsRegular() {
+			b, err := os.ReadFile(p)
+			if err != nil {
+				return err
+			}
+			h := sha256.Sum256(b)
+			e.Size, e.Sum = int64(len(b)), hex.EncodeToString(h[:])
+		}
+		res = append(res, e)
+		return nil
+	})
+	return res, err
 }
 
 func idList(is []int) []oid.ID {
@@ -193,7 +237,9 @@ func runCase(t *rapid.T, rec *ev.Recorder) {
 	// blob writes free of batching timers, which cannot fire while the case
 	// goroutine waits on a mutex (synctest).
 	sh, err = stor.OpenShard(stor.ShardCfg{Dir: dir, Epoch: ep, WriteCache: withWC, Payments: pay,
-		FSTOpts:    []fstree.Option{fstree.WithCombinedCountLimit(1)},
+		FSTOpts:    []fstree.Option{fstree.WithCombinedCountLimit(1), fstree.WithNoSync(true)},
+		WCOpts:     []writecache.Option{writecache.WithNoSync(true), writecache.WithFlushWorkersCount(4)},
+		MetaOpts:   []meta.Option{meta.WithBoltDBOptions(noSyncBolt())},
 		GCInterval: time.Second, Extra: []shard.Option{shard.WithExpiredObjectsCallback(expiredCb)}})
 	if err != nil {
 		ev.Inconclusive("open shard: %v", err)
@@ -300,7 +346,7 @@ func runCase(t *rapid.T, rec *ev.Recorder) {
 	if cacheAtSwitch > 0 {
 		labels = append(labels, "cache-nonempty-at-switch")
 	}
-	baseline, err := snap.Tree(dir)
+	baseline, err := tree(dir)
 	if err != nil {
 		ev.Inconclusive("snapshot: %v", err)
 	}
@@ -323,7 +369,7 @@ func runCase(t *rapid.T, rec *ev.Recorder) {
 
 	same := func(step string) {
 		synctest.Wait()
-		cur, err := snap.Tree(dir)
+		cur, err := tree(dir)
 		if err != nil {
 			ev.Inconclusive("snapshot: %v", err)
 		}
